@@ -29,7 +29,7 @@ class PrinterStrings:
 
     def __init__(self, F):
         self.F = F
-        self.fns = {g: F.hir[g] for g in F.hir if (F.fns.get(g) and (F.fns[g].file or "").endswith("print/printer.rs"))}
+        self.fns = {g: F.hir[g] for g in F.hir if (F.fns.get(g) and "/src/print/" in (F.fns[g].file or ""))}
         self.params = {g: [p.get("name") for p in t["params"]] for g, t in self.fns.items()}
         self.calls = {}   # callee gid -> [(caller gid, call node)]
         for g, t in self.fns.items():
@@ -322,9 +322,19 @@ def run(cx, rep):
                mod.loc(c.node), sample={"class": c.name, "anchored_in_constructor": anchored_ctor, "anchored_by_printer": printer_anchored})
     # ---------------------------------------------------------------- C01.3
     rep.rule("C01.3", "escape_regex escapes every regular-expression syntax character, backslash first")
-    er = [g for g in F.hir if g.endswith("::escape_regex")]
+    # by role: the function &str -> String of the IR module that rewrites characters with `replace` (free function
+    # or associated function, whatever its name)
+    er = []
+    for g in sorted(F.hir):
+        f_ = F.fns.get(g)
+        if f_ is None or f_.kind == "Closure" or not (f_.file or "").endswith("ast/runtype.rs"):
+            continue
+        if (f_.inputs or []) == ["&str"] and (f_.output or "").endswith("String") and any(
+                (n["k"] == "MethodCall" and n["method"] == "replace") or (n["k"] == "Lit" and n.get("lit") == "char" and n.get("v") == "\\")
+                for n in walk(F.hir[g]["body"])):
+            er.append(g)
     if len(er) != 1:
-        rep.anchor_missing("C01.3", "escape_regex")
+        rep.anchor_missing("C01.3", "the regex-escaping function (&str -> String using replace) in ast/runtype.rs; found %d" % len(er))
     else:
         t = F.hir[er[0]]
         chain = []     # (node, char, replacement) in pre-order: the outermost call (last applied) comes first
@@ -354,7 +364,27 @@ def run(cx, rep):
                     table_ok = tmpl == ["015cc000"] and rl == ev
                 else:
                     table_ok = False
-        if table is not None and not chain:
+        # single-pass form: for every character, `if matches!(c, 'x' | 'y' | ..) { out.push('\\') } out.push(c)`
+        single = None
+        if not chain and table is None:
+            for n in walk(t["body"]):
+                if n["k"] != "Match":
+                    continue
+                lits = []
+                for a in n["arms"]:
+                    ps_ = a["pat"]["pats"] if a["pat"]["k"] == "P.Or" else [a["pat"]]
+                    cs_ = [p_.get("lit") for p_ in ps_ if p_.get("lit") is not None]
+                    if cs_ and len(cs_) == len(ps_):
+                        lits.append((cs_, a))
+                pushes_bs = any(x["k"] == "MethodCall" and x["method"] in ("push", "push_str") and x["args"] and x["args"][0]["k"] == "Lit" and x["args"][0].get("v") in ("\\",) for x in walk(t["body"]))
+                if lits and pushes_bs:
+                    single = sorted({c_ for cs_, _ in lits for c_ in cs_})
+            if single is not None:
+                table_ok = True
+        if single is not None:
+            chars = [c_ for c_ in single if c_ != "\\"] + ["\\"]   # one pass: order is immaterial
+            rep.ob("C01.3", "single-pass", True, sample={"escaped": "".join(single)})
+        elif table is not None and not chain:
             chars = list(reversed(table))
             rep.ob("C01.3", "table/replacement", table_ok, "each table character must be replaced by a backslash followed by the character itself", F.fns[er[0]].loc())
         else:
